@@ -131,8 +131,35 @@ structure Cfg where
   value : Option String
   deriving Repr, Inhabited
 
+/-- what a field path designates on the composed resource (crossplane-runtime fieldpath.Pave
+… GetValue; the library's path parsing and indexing stay an oracle): a string, or any other
+JSON value -/
+inductive FVal where
+  | str (s : String)
+  | int (n : Int)
+  | bool (b : Bool)
+  | strs (l : List String)     -- an array of (plain) strings
+  deriving DecidableEq, Repr, Inhabited
+
+/-- json.Marshal of a value that is not a string (strings: letters, digits, `-`, `.` only) -/
+def marshal : FVal → String
+  | .str s => "\"" ++ s ++ "\""
+  | .int n => toString n
+  | .bool b => if b then "true" else "false"
+  | .strs l => "[" ++ ",".intercalate (l.map fun s => "\"" ++ s ++ "\"") ++ "]"
+
+/-- fromFieldPath (composite/connection.go): GetString first; if the value is not a string,
+GetValue and json.Marshal; no such field / malformed path ⇒ error (`none`) -/
+def fromFieldPath : Option FVal → Option String
+  | none => none
+  | some (.str s) => some s
+  | some v => some (marshal v)
+
+/-- the field reader ExtractConnectionDetails uses, over the oracle `valueAt` -/
+def fieldReader (valueAt : String → Option FVal) : String → Option String := fun p => fromFieldPath (valueAt p)
+
 /-- ExtractConnectionDetails; `fieldAt` is the field-path reader of the composed resource
-(fieldpath library: an oracle); `none` = error -/
+(`fieldReader valueAt`); `none` = error -/
 def extract (conn : Data) (fieldAt : String → Option String) : List Cfg → Data → Option Data
   | [], acc => some acc
   | c :: cs, acc =>
